@@ -158,6 +158,21 @@ def block_rules(fx, rep):
                 return 1
             if E.is_call(sc, "Duration::checked_sub"):
                 return 0
+        # the same decisions written with is_err() / is_ok() / is_none() / is_some()
+        sc = E.strip_casts(e)
+        neg = False
+        while sc[0] == "un" and sc[1] == "Not":
+            sc = E.strip_casts(sc[2])
+            neg = not neg
+        if sc[0] == "call" and sc[2] and ce.true_target is not None:
+            inner = E.strip_casts(sc[2][0])
+            pos = None
+            if E.is_call(inner, "Receiver::recv_timeout"):
+                pos = True if sc[1].endswith("::is_err") else (False if sc[1].endswith("::is_ok") else None)
+            elif E.is_call(inner, "Duration::checked_sub"):
+                pos = True if sc[1].endswith("::is_none") else (False if sc[1].endswith("::is_some") else None)
+            if pos is not None:
+                return "true" if pos != neg else "false"
         return None
     g = fc.guards(tguard)
     tm = [bb for bb, i, s in fc.aggregates("DdsError", "Timeout")]
